@@ -95,10 +95,42 @@ fn copy_paths(c: &mut Ctx, rng: &mut Rng) {
     c.sig_parts(&[0xc0b1, crate::ctx::prop_salt(&plan.name())]);
 }
 
+/// Tables of 2^18..2^20 buckets holding a few dozen elements: code paths gated on the table size
+/// (and the wrap-around at the end of a very large table) are reached without needing many elements.
+fn huge_scenario<K: Elem, V: Elem>(c: &mut Ctx, rng: &mut Rng) {
+    use crate::mapdrv::W_HUGE;
+    use crate::plan::Plan;
+    let lg = *rng.pick(&[18u32, 18, 19, 20]);
+    let cap = (1usize << lg) / 8 * 7;
+    let plan = *rng.pick(&[Plan::Tail, Plan::Tail, Plan::Max, Plan::Mixed, Plan::Ident, Plan::Stride, Plan::SamePos]);
+    let mut d: MapDrv<K, V> = MapDrv::new(PlanBH::new(plan, rng.next()), 64, cap);
+    d.max_live = 48;
+    let mut desc = d.describe("C01 very large sparse table");
+    desc.set("buckets_log2", Json::i(lg));
+    c.describe(desc);
+    c.bump("huge_table_scenarios");
+    let n_ops = if c.is_miri() { 0 } else { 40 };
+    for _ in 0..n_ops {
+        if !d.step(c, rng, &W_HUGE) {
+            break;
+        }
+    }
+    c.max("max_buckets", d.facts.buckets as u64);
+    c.digests.push((c.scen_index, d.tr.0 ^ d.contents_digest()));
+}
+
 pub fn run(c: &mut Ctx) {
     c.run_scenarios(|c, idx, rng| {
         if crate::util::mix(idx) % 23 == 0 {
             copy_paths(c, rng);
+            return;
+        }
+        if crate::util::mix(idx) % 97 == 1 && !c.is_miri() {
+            if rng.chance(1, 2) {
+                huge_scenario::<crate::elem::P8, crate::elem::P8>(c, rng);
+            } else {
+                huge_scenario::<crate::elem::T24, crate::elem::B1>(c, rng);
+            }
             return;
         }
         let pair = C01_PAIRS[(crate::util::mix(idx) % C01_PAIRS.len() as u64) as usize];
